@@ -215,11 +215,13 @@ pub fn run(cfg: &RunCfg, rep: &mut Report) {
             n_hash: 2,
             concrete: true,
             constants: rng.chance(1, 10),
-            repeat_atoms: false,
+            // policies the compiler must refuse (repeated keys, two lock-time units on one
+            // path) are part of the workload: refusing is fine, an insane output is not
+            repeat_atoms: rng.chance(1, 5),
             timelocks: true,
             hashes: true,
             max_depth: 4,
-            timelock_heavy: false,
+            timelock_heavy: rng.chance(1, 5),
         };
         let leaves = 1 + rng.below(max_leaves);
         let p = PolGen::new(&mut rng, pcfg).gen(leaves, 0);
